@@ -17,7 +17,7 @@ runtime error). (malformed) unclosed braces, stray }, non-numeric widths, number
 The print/println/eprint/eprintln half (bytes on the right stream, returned length) is checked end to end by the e2e section. \
 Non-trivial: >= 2 specifiers of which >= 1 indexed and >= 1 positional, or a padded specifier whose argument is shorter than the width, or a number format. Distinct by call text.",
     assumptions: &["display of floats, chars, bytes and containers as arguments is a don't-care zone and not generated in strict cases"],
-    required_classes: &[("strict", 20_000), ("mixed-indexed-positional", 2_000), ("padded", 5_000), ("number-format", 3_000), ("missing-argument", 1_000), ("malformed", 2_000)],
+    required_classes: &[("strict", 20_000), ("mixed-indexed-positional", 2_000), ("padded", 5_000), ("number-format", 3_000), ("missing-argument", 1_000), ("malformed", 2_000), ("print-family", 150)],
     exhaustive_when_sections: &[],
 };
 
@@ -259,6 +259,10 @@ fn call_text(fmt: &str, args: &[Arg]) -> String {
     s
 }
 
+pub fn check_case(ctx: &mut Ctx, section: &str, case: &Case) -> Vec<Violation> {
+    check_strict(ctx, section, case)
+}
+
 fn check_strict(ctx: &mut Ctx, section: &str, case: &Case) -> Vec<Violation> {
     let fmt = fmt_text(&case.pieces);
     let text = call_text(&fmt, &case.args);
@@ -329,6 +333,57 @@ fn gen_malformed(bytes: &[u8]) -> String {
     call
 }
 
+/// the print family through the real binary: the rendered text on the right stream, the byte length returned
+fn print_case(ctx: &mut Ctx, bytes: &[u8]) -> Vec<Violation> {
+    use super::super::e2e::{self, Opts};
+    let case = gen_case(bytes);
+    let want = match render_ref(&case.pieces, &case.args) {
+        Ok(t) => t,
+        Err(_) => return vec![],
+    };
+    let fmt = fmt_text(&case.pieces);
+    let which = bytes.first().copied().unwrap_or(0) % 4;
+    let (name, to_stderr, ln) = [("print", false, false), ("println", false, true), ("eprint", true, false), ("eprintln", true, true)][which as usize];
+    let mut call = format!("{}(\"{}\"", name, fmt);
+    for a in &case.args {
+        call.push_str(", ");
+        call.push_str(&a.lit());
+    }
+    call.push(')');
+    let src = format!("let r = {};\n{}(\"{{}}\", r);\n", call, if to_stderr { "print" } else { "eprint" });
+    ctx.case(hash_str(&src), !want.is_empty());
+    ctx.class("print-family");
+    guard("print", "src", &src);
+    let path = e2e::script_file("c12-print.p2", &src);
+    let r = e2e::run(Opts::new(vec![path]));
+    let cj = json!({"print": true, "src": src, "want": want, "to_stderr": to_stderr, "ln": ln});
+    judge_print(&r, &src, &want, to_stderr, ln, &cj)
+}
+
+fn judge_print(r: &super::super::e2e::Run, src: &str, want: &str, to_stderr: bool, ln: bool, cj: &Value) -> Vec<Violation> {
+    let mut out = Vec::new();
+    if r.spawn_error.is_some() || r.timed_out {
+        return out;
+    }
+    if let Some(c) = r.crashed() {
+        out.push(Violation::new("print", super::super::e2e::crash_signature(&c), format!("{}\n{}", c, src), cj.clone()));
+        return out;
+    }
+    let text = format!("{}{}", want, if ln { "\n" } else { "" });
+    let (text_stream, len_stream) = if to_stderr { (r.err_text(), r.out_text()) } else { (r.out_text(), r.err_text()) };
+    if text_stream != text {
+        out.push(Violation::new("print", "print:wrong-text-or-stream", format!("the {} stream holds {:?}, expected {:?}\n{}", if to_stderr { "stderr" } else { "stdout" }, text_stream, text, src), cj.clone()));
+        return out;
+    }
+    // the returned length: the bytes of the text, with or without the newline of the ln variants
+    let got: Option<usize> = len_stream.trim().parse().ok();
+    let ok = got == Some(want.len()) || (ln && got == Some(want.len() + 1));
+    if !ok {
+        out.push(Violation::new("print", "print:wrong-length", format!("the call returned {:?}; the text has {} bytes\n{}", len_stream, want.len(), src), cj.clone()));
+    }
+    out
+}
+
 pub fn run(ctx: &mut Ctx) {
     let n = ctx.nshards as u32;
     drive(ctx, "strict", ctx.tier.pick(480_000, 6_000_000) / n, 8, 160, |ctx, bytes| {
@@ -346,10 +401,24 @@ pub fn run(ctx: &mut Ctx) {
             _ => vec![],
         }
     });
+    // the print family goes through the real binary; few shards (process creation does not scale here)
+    set_shrink_iters(60);
+    let e2e_shards = 4.min(ctx.nshards);
+    if ctx.shard < e2e_shards {
+        drive(ctx, "print", ctx.tier.pick(400, 12_000) / e2e_shards as u32, 8, 160, |ctx, bytes| print_case(ctx, bytes));
+    }
 }
 
 pub fn replay(section: &str, case: &Value, ctx: &mut Ctx) {
     let text = case["src"].as_str().unwrap_or("");
+    if case.get("print").is_some() {
+        let path = super::super::e2e::script_file("c12-print.p2", text);
+        let r = super::super::e2e::run(super::super::e2e::Opts::new(vec![path]));
+        for v in judge_print(&r, text, case["want"].as_str().unwrap_or(""), case["to_stderr"].as_bool().unwrap_or(false), case["ln"].as_bool().unwrap_or(false), case) {
+            ctx.report(v);
+        }
+        return;
+    }
     if case.get("malformed").is_some() {
         if let Outcome::Panic(p) = run_text(text) {
             ctx.report(Violation::new(section, p.signature(), format!("`{}` crashed: {}", text, p.describe()), case.clone()));
